@@ -45,13 +45,13 @@ func dataset() sl.Op {
 		op.Ids = append(op.Ids, id)
 		op.Docs = append(op.Docs, d)
 	}
-	add(1, sl.Doc{"vec": []float32{0, 0}, "flat": []float32{10, 0}, "txt": "quick brown fox", "t2": "alpha beta", "cat": "x", "a": int64(1), "n": sl.Doc{"x": int64(5), "y": "five"}, "m": int64(3), "s": "scalar"})
-	add(2, sl.Doc{"vec": []float32{1, 0}, "flat": []float32{7, 0}, "txt": "quick quick dog", "t2": "beta", "cat": "y", "a": int64(2), "n": sl.Doc{"x": int64(3)}, "m": "text", "s": sl.Doc{"x": int64(1)}})
-	add(3, sl.Doc{"vec": []float32{0, 2.5}, "flat": []float32{4.5, 0}, "txt": "lazy dog", "t2": "gamma alpha alpha", "cat": "x", "a": int64(3), "n": sl.Doc{"x": int64(4)}, "m": int64(1)})
-	add(4, sl.Doc{"vec": []float32{4, 4}, "flat": []float32{2.2, 0}, "txt": "fox", "cat": "x", "a": int64(4), "m": 2.5})
-	add(5, sl.Doc{"vec": []float32{-6, 1}, "flat": []float32{1, 0}, "t2": "alpha", "cat": "y", "a": int64(5), "n": sl.Doc{"y": "only y"}})
-	add(6, sl.Doc{"vec": []float32{9, -3}, "txt": "quick zebra", "cat": "z", "a": int64(2)})
-	add(7, sl.Doc{"flat": []float32{0, 0.3}, "txt": "zebra", "t2": "beta gamma", "a": int64(7), "n": sl.Doc{"x": int64(5)}})
+	add(1, sl.Doc{"big": int64(1704067200000000000 + 6), "vec": []float32{0, 0}, "flat": []float32{10, 0}, "txt": "quick brown fox", "t2": "alpha beta", "cat": "x", "a": int64(1), "n": sl.Doc{"x": int64(5), "y": "five"}, "m": int64(3), "s": "scalar"})
+	add(2, sl.Doc{"big": int64(1704067200000000000 + 1), "vec": []float32{1, 0}, "flat": []float32{7, 0}, "txt": "quick quick dog", "t2": "beta", "cat": "y", "a": int64(2), "n": sl.Doc{"x": int64(3)}, "m": "text", "s": sl.Doc{"x": int64(1)}})
+	add(3, sl.Doc{"big": int64(1704067200000000000 + 4), "vec": []float32{0, 2.5}, "flat": []float32{4.5, 0}, "txt": "lazy dog", "t2": "gamma alpha alpha", "cat": "x", "a": int64(3), "n": sl.Doc{"x": int64(4)}, "m": int64(1)})
+	add(4, sl.Doc{"big": int64(1704067200000000000 + 0), "vec": []float32{4, 4}, "flat": []float32{2.2, 0}, "txt": "fox", "cat": "x", "a": int64(4), "m": 2.5})
+	add(5, sl.Doc{"big": int64(1704067200000000000 + 5), "vec": []float32{-6, 1}, "flat": []float32{1, 0}, "t2": "alpha", "cat": "y", "a": int64(5), "n": sl.Doc{"y": "only y"}})
+	add(6, sl.Doc{"big": int64(1704067200000000000 + 2), "vec": []float32{9, -3}, "txt": "quick zebra", "cat": "z", "a": int64(2)})
+	add(7, sl.Doc{"big": int64(1704067200000000000 + 3), "flat": []float32{0, 0.3}, "txt": "zebra", "t2": "beta gamma", "a": int64(7), "n": sl.Doc{"x": int64(5)}})
 	add(8, sl.Doc{"other": "nothing indexed", "n": sl.Doc{"x": int64(1)}})
 	return op
 }
@@ -349,7 +349,7 @@ func wOf(q models.Query) *float32 {
 
 // ---- select / sort / paging ----
 
-var selects = [][]string{nil, {"*"}, {"a"}, {"n.x"}, {"n.x", "n"}, {"n", "n.x"}, {"a", "missing"}, {"n.y", "cat", "a"}, {"n.x", "n.y"}, {"*", "a"}, {"a", "*"}}
+var selects = [][]string{nil, {"*"}, {"a"}, {"big", "a"}, {"n.x"}, {"n.x", "n"}, {"n", "n.x"}, {"a", "missing"}, {"n.y", "cat", "a"}, {"n.x", "n.y"}, {"*", "a"}, {"a", "*"}}
 
 var sorts = [][]models.SortOption{
 	nil,
@@ -360,6 +360,8 @@ var sorts = [][]models.SortOption{
 	{{Property: "cat", Descending: true}, {Property: "n.x"}, {Property: "a", Descending: true}}, {{Property: "cat"}, {Property: "n.x", Descending: true}, {Property: "a"}},
 	{{Property: "missing", Descending: true}, {Property: "cat", Descending: true}, {Property: "a"}},
 	{{Property: "a"}, {Property: "a"}, {Property: "cat"}, {Property: "n.x"}, {Property: "n.y"}, {Property: "m"}, {Property: "missing"}, {Property: "a", Descending: true}, {Property: "cat"}, {Property: "n.x"}},
+	// integers beyond 2^53 that differ by 1 (nanosecond timestamps, snowflake ids): equal as float64, distinct as int64
+	{{Property: "big"}}, {{Property: "big", Descending: true}}, {{Property: "big"}, {Property: "a", Descending: true}},
 }
 
 // selectRef builds the expected DecodedData for a select list per the
@@ -649,7 +651,7 @@ func scalarSelect(o *sl.Obs, in *sl.Inst, m *sl.Model) {
 }
 
 func master(cfg *harness.Config, rep *harness.Report) {
-	rep.Rule = "a 300-point data set with four composites that merge up to 225 ranked results (sub-query limits of 75, points found again by later sub-queries, mixed with text and a filter); fixed 8-point data set (distinct distances, points lacking fields, a field that is int / string / float / absent, a field that is scalar in one point and a map in another); all _and/_or trees with 1-3 children and all two-level trees over a 7-leaf pool (graph vector, flat vector, two text, string filter, integer filter, _id) x 4 weight assignments (nil / positive / negative / an explicit zero on each kind of ranking leaf): result set = set algebra of the sub-results, hybrid = sum of weighted contributions, ranked first highest hybrid first, filter-only after; on a fixed sample of trees and all leaves: 11 select lists x 17 sort lists (asc/desc, every direction pattern over two and three keys with ties on the leading keys, nested, missing, mixed-type, 10 keys) with DecodedData = exactly the selected stored values and adjacent-pair sortedness, and offset {0,1,2,n-1,n,n+3} x limit {1,2,100} = contiguous slice of the full order (compared by order keys)"
+	rep.Rule = "a 300-point data set with four composites that merge up to 225 ranked results (sub-query limits of 75, points found again by later sub-queries, mixed with text and a filter); fixed 8-point data set (distinct distances, points lacking fields, a field that is int / string / float / absent, a field that is scalar in one point and a map in another); all _and/_or trees with 1-3 children and all two-level trees over a 7-leaf pool (graph vector, flat vector, two text, string filter, integer filter, _id) x 4 weight assignments (nil / positive / negative / an explicit zero on each kind of ranking leaf): result set = set algebra of the sub-results, hybrid = sum of weighted contributions, ranked first highest hybrid first, filter-only after; on a fixed sample of trees and all leaves: 12 select lists x 20 sort lists (asc/desc, integers beyond 2^53 one apart, every direction pattern over two and three keys with ties on the leading keys, nested, missing, mixed-type, 10 keys) with DecodedData = exactly the selected stored values and adjacent-pair sortedness, and offset {0,1,2,n-1,n,n+3} x limit {1,2,100} = contiguous slice of the full order (compared by order keys)"
 	rep.Assumptions = []string{"sorting is defined on the selected data (sort keys must be selected or '*')", "leaf limits are cut where no distance tie exists; trees whose reference is ambiguous are skipped and counted", "ties in the final order may be resolved either way"}
 	p := pool.New(pool.Options{CPUsPerWorker: 2, JobTimeout: 300 * time.Second})
 	syms := symbols()
